@@ -1,5 +1,5 @@
 From Coq Require Import Extraction ExtrOcamlBasic ZArith.
-From PV Require Import Base.Bytes Base.Outcome Base.DrvBase Model.Curve.
+From PV Require Import Base.Bytes Base.Outcome Base.DrvBase Model.Curve Model.CurveObj.
 (* uniquely named wrappers (extraction renames clashing identifiers such as add/neg) *)
 Definition c02_curve (p a b n : Z) : curve := {| cp := p; ca := a; cb := b; cn := n |}.
 Definition c02_gen (c : curve) (G : pt) (bits : nat) (blind : Z) : gen :=
@@ -20,6 +20,18 @@ Definition c02_mk_gen := mk_gen.
 Definition c02_shared := shared_public_key.
 Definition c02_g_inverse := g_inverse.
 Definition c02_gen_fields (g : gen) := (cp (gc g), ca (gc g), cb (gc g), cn (gc g), gG g, g_bits g, g_blind g).
+(* object level (Model/CurveObj.v): a point object = coordinates + owning curve object + identity *)
+Definition c02_pobj (c : curve) (cid : nat) (xy : pt) (pid : nat) : pobj :=
+  {| po_xy := xy; po_owner := {| co_curve := c; co_id := cid |}; po_id := pid |}.
+Definition c02_oadd (P Q : pobj) : outcome pt := omap po_xy (obj_add P Q 100).
+Definition c02_osub (P Q : pobj) : outcome pt := omap po_xy (obj_sub P Q 100).
+Definition c02_oneg (P : pobj) : outcome pt := omap po_xy (obj_neg P 100).
+Definition c02_omul (P : pobj) (e : Z) : outcome pt := omap po_xy (obj_mul P e 100).
+Definition c02_ocadd (c : curve) (P Q : pobj) : outcome pt :=
+  omap po_xy (obj_curve_add {| co_curve := c; co_id := 0 |} P Q 100).
+Definition c02_ocmul (c : curve) (P : pobj) (e : Z) : outcome pt :=
+  omap po_xy (obj_curve_multiply {| co_curve := c; co_id := 0 |} P e 100).
 Extraction "../ml/c02.ml" drv_base c02_curve c02_gen c02_inverse_mod c02_contains c02_mk_point c02_add c02_neg c02_sub
   c02_leftmost_bit c02_multiply c02_raw_mul c02_gmul c02_modular_sqrt c02_points_for_x c02_mk_gen c02_shared
-  c02_g_inverse c02_gen_fields.
+  c02_g_inverse c02_gen_fields
+  c02_pobj c02_oadd c02_osub c02_oneg c02_omul c02_ocadd c02_ocmul.
